@@ -1,25 +1,27 @@
 """C01 — no byte stream can crash a terminal emulation (DESIGN.md section 7 C01, Appendix A). PARTIAL."""
-import os, re
+import os, re, base64, struct
 from props import termgen as tg
 
 ID = 'C01'
-GENERATORS = []
+GENERATORS = ['gen_font']     # Model/AnsiTok.v loads `CTerm:Font:` strings with C17's Model/Font.v, which needs Gen/FontConsts.v
 COQ_TARGETS = ['Props/C01.vo', 'Run/RunC09.vo']
 PROPS_MODULE = 'Props.C01'
-THEOREMS = ['c01_standalone', 'c01_ansi_char_partial', 'c01_stream_partial', 'core_ops_never_panic']
+THEOREMS = ['c01_standalone', 'c01_ansi_char_partial', 'c01_stream_partial', 'c01_ansi_stream_partial', 'core_ops_never_panic']
 SWEEP_LEMMAS = []
 TRUSTED = ['Coq 8.16.1 kernel + vm_compute; no axioms (Print Assumptions: closed)',
            'hand-written models Model/TermCore.v, AnsiTok.v, Emu.v (shared with C09), tied to the Rust source by differential runs: outcome class of every character, final geometry',
+           'Model/Font.v (C17: load_custom_font, BitFont::from_bytes) reused for the CTerm:Font DCS; Model/Base64.v = decoder of the external crate base64 0.22 (STANDARD), tied by stage C on valid / truncated / badly padded / non-canonical / non-alphabet payloads',
            'harness/src/c01.rs + the worker protocol of vlib/driver.py (panic location, abort / stack overflow / timeout / OOM classification)']
 UNMODELLED = ['PETSCII (no Coq model): stage S only',
               'theorem level: states reached after a text-area resize (CSI 8;h;w t) and characters processed while macros are stored (macro replay) are covered by stages C and S only; '
               'the per-character theorem is proved for every parser state but assumes the C09 invariant and an empty macro table',
-              'DCS CTerm:Font (BitFont::from_bytes), DECFRA with a non-scalar fill character, unbounded macro recursion: known panic classes (model returns their site / Diverge)',
-              'sixel decoding (runs in a thread, C14), OSC 4 palette regex (accepted without evaluation), DECRQCRA checksum value, SendString/PlayMusic payloads, font tables',
+              'unbounded macro recursion: known class (model: Diverge beyond MACRO_FUEL)',
+              'sixel decoding (runs in a thread, C14) and Buffer::update_sixel_threads, OSC 4 palette regex (accepted without evaluation), DECRQCRA checksum value, SendString/PlayMusic payloads, '
+              'font tables (of a font loaded by DCS only the slot number is kept; the built-in slots 0..=42 are a constant of the model)',
               'time and memory (C03): loop counts are not bounded by the theorems; the generators keep repeat counts of REP/SU/SD/IL/DL/ICH/DCH/SL/SR/CVT/CBT/CUU small']
 ASSUMPTIONS = ['row counters stay below 2^31 (see C09)', 'bytes are fed as `b as char`', 'MACRO_FUEL = 32 bounds the modelled macro nesting']
 RULE = ('character-level streams: (1) token streams over the C09 alphabet plus resize, DCS (text/hex macro definition, invocation, nested and self invocation, sixel hand-off, '
-        'unknown), OSC 4/8 (open/close/unbalanced), APS, music strings (all seven MusicStates, overflowing lengths) for every music option; (2) malformed streams of raw bytes biased to the bytes '
+        'CTerm:Font strings with PSF1/PSF2/raw fonts and perturbed base64, unknown), font selection of loaded / empty slots, DECFRA with scalar and non-scalar fill characters, OSC 4/8 (open/close/unbalanced), APS, music strings (all seven MusicStates, overflowing lengths) for every music option; (2) malformed streams of raw bytes biased to the bytes '
         'that drive the state machines, with huge numbers; all ten emulations, sizes 1..=132 x 1..=60; the ledger inputs as regression cases. Stage C compares per stream the number of '
         'actions, of error values, the index of the first error and the final geometry (or the panic site class). Stage S: any panic/abort/stack overflow/timeout/OOM of the worker is a failure '
         'with signature C01-<class>:<function> (panic location mapped to the enclosing fn). non-trivial = stream produced at least one error value or moved the cursor')
@@ -43,8 +45,52 @@ def sanitize(b):
     b = re.sub(rb'\d{3,}(?![0-9eEFdHfaBCDGrsmnXtJK])', lambda m: m.group(0)[:2], b)
     return b
 
+def font_dcs(slot, data, payload=None):
+    """ESC P CTerm:Font:<slot>:<base64> ESC \\ (what BitFont::encode_as_ansi writes); payload overrides the base64 text"""
+    if isinstance(slot, int): slot = str(slot).encode()
+    return E + b'PCTerm:Font:' + slot + b':' + (base64.b64encode(data) if payload is None else payload) + E + b'\\'
+
+def psf2(length, charsize, height, width, data=b'', version=0, headersize=32):
+    return struct.pack('<8I', 0x864ab572, version, headersize, 0, length, charsize, height, width) + data
+
+PSF1_EMPTY = b'\x36\x04\x00\x10'                   # PSF1, 8x16, no glyph data
+FONT_TOKENS = [('FONT-short', font_dcs(0, b'')), ('FONT-3bytes', font_dcs(0, b'\x36\x04\x00')), ('FONT-psf1', font_dcs(77, PSF1_EMPTY)), ('FONT-psf1-5', font_dcs(78, PSF1_EMPTY + b'\xff')),
+               ('FONT-psf1-6', font_dcs(79, PSF1_EMPTY + b'\xff\x81')), ('FONT-psf1-h0', font_dcs(80, b'\x36\x04\x01\x00\x01\x02\x03')), ('FONT-psf2', font_dcs(88, psf2(0, 0, 16, 8))),
+               ('FONT-psf2-1', font_dcs(89, psf2(1, 2, 2, 8, b'\x55\xaa'))), ('FONT-psf2-badlen', font_dcs(90, psf2(1, 1, 1, 8))), ('FONT-psf2-ver', font_dcs(91, psf2(0, 0, 16, 8, version=1))),
+               ('FONT-psf2-short', font_dcs(92, psf2(0, 0, 16, 8)[:31])), ('FONT-psf2-hdr', font_dcs(93, psf2(0, 0, 16, 8, b'\0\0', headersize=34))), ('FONT-psf2-ovf', font_dcs(94, psf2(0xffffffff, 32, 32, 8, headersize=64))),
+               ('FONT-psf2-many', font_dcs(95, psf2(0xd801, 0, 0, 8))), ('FONT-raw5', font_dcs(96, b'\0' * 5)),
+               ('FONT-nopad', font_dcs(81, b'', b'NgQAEA')), ('FONT-noncanon2', font_dcs(81, b'', b'NgQAEB==')), ('FONT-noncanon1', font_dcs(81, b'', b'NgQAEP+=')), ('FONT-pad3', font_dcs(81, b'', b'NgQAE===')),
+               ('FONT-midpad', font_dcs(81, b'', b'Ng==AEA=')), ('FONT-len1', font_dcs(81, b'', b'NgQAE')), ('FONT-badsym', font_dcs(81, b'', b'NgQA*A==')), ('FONT-hi', font_dcs(81, b'', b'NgQA\xe9A==')),
+               ('FONT-urlsafe', font_dcs(81, b'', b'NgQA_-8=')), ('FONT-std', font_dcs(82, b'', b'NgQA/+8=')), ('FONT-extra-pad', font_dcs(81, b'', b'NgQAEA====')), ('FONT-space', font_dcs(81, b'', b'NgQA EA==')),
+               ('FONT-noslot', font_dcs(b'', PSF1_EMPTY)), ('FONT-plus', font_dcs(b'+83', PSF1_EMPTY)), ('FONT-plusonly', font_dcs(b'+', PSF1_EMPTY)), ('FONT-neg', font_dcs(b'-1', PSF1_EMPTY)),
+               ('FONT-slot-max', font_dcs(18446744073709551615, PSF1_EMPTY)), ('FONT-slot-ovf', font_dcs(18446744073709551616, PSF1_EMPTY)), ('FONT-slot-0x', font_dcs(b'0084', PSF1_EMPTY)),
+               ('FONT-nocolon', E + b'PCTerm:Font:12' + E + b'\\'), ('FONT-colons', font_dcs(b'85:', PSF1_EMPTY)), ('FONT-prefix-only', E + b'PCTerm:Font:' + E + b'\\'), ('FONT-case', E + b'PCterm:Font:1:NgQAEA==' + E + b'\\'),
+               ('FONT-slot0', font_dcs(0, PSF1_EMPTY))]
+FONTSEL_TOKENS = [('FONTSEL-%d' % n, E + b'[0;%d D' % n) for n in (77, 78, 79, 80, 81, 82, 83, 84, 85, 88, 89, 90, 91, 93, 95, 96, 42, 43)] + [('FONTSEL-max', E + b'[0;2147483647 D')]
+RAW256 = font_dcs(66, bytes(range(7, 256)) + bytes(7))                       # an 8x1 raw font (344 base64 symbols)
+RAW4096 = font_dcs(67, bytes((i * 7 + i // 256) % 256 for i in range(4096)))    # an 8x16 raw font
+FONT_STREAMS = [(RAW256 + E + b'[0;66 D' + E + b'[0;67 D', 'font-raw256'), (RAW4096 + E + b'[0;67 D' + E + b'[0;66 D', 'font-raw4096'),
+                (font_dcs(66, bytes(255)) + E + b'[0;66 D', 'font-raw255'), (font_dcs(18446744073709551615, PSF1_EMPTY) + E + b'[0;2147483647 D', 'font-slot-max'),
+                (E + b'c' + font_dcs(99, PSF1_EMPTY) + E + b'c' + E + b'[!p' + E + b'[0;99 D', 'font-survives-reset')]
+
+def random_font_token(rng):
+    """a font DCS with a random payload: valid base64 of a (mostly loadable) font, perturbed in one place half of the time"""
+    kind = rng.random()
+    if kind < 0.4: data = b'\x36\x04' + bytes(rng.randrange(256) for _ in range(rng.choice([0, 1, 2, 3, 4, 5, 9])))
+    elif kind < 0.7: data = psf2(rng.choice([0, 1, 2]), rng.choice([0, 1, 2]), rng.choice([0, 1, 2, 16]), 8, bytes(rng.randrange(256) for _ in range(rng.choice([0, 1, 2, 4]))), version=rng.choice([0, 0, 0, 1]))
+    else: data = bytes(rng.randrange(256) for _ in range(rng.choice([0, 1, 2, 3, 4, 5, 6, 7])))
+    pay = bytearray(base64.b64encode(data))
+    if rng.random() < 0.5 and pay:
+        i = rng.randrange(len(pay)); r = rng.random()
+        if r < 0.3: del pay[i]
+        elif r < 0.6: pay[i] = rng.choice(b'ABPQghw/+019=-_ *')
+        elif r < 0.8: pay.insert(i, rng.choice(b'A=Z9'))
+        else: pay = pay.rstrip(b'=')
+    slot = rng.choice([b'77', b'43', b'0', b'+9', b'', b'x', b'99'])
+    return ('FONT-random', font_dcs(slot, b'', bytes(pay)))
+
 def extra_tokens(music):
-    t = [('DCS-macro', E + b'P1;0;0!zAB\x0a' + E + b'\\'), ('DCS-macro-hex', E + b'P2;0;1!z41!3;4243;0A' + E + b'\\'), ('DCS-macro-bad', E + b'P3;0;1!z4G' + E + b'\\'),
+    t = FONT_TOKENS + FONTSEL_TOKENS + [('DCS-macro', E + b'P1;0;0!zAB\x0a' + E + b'\\'), ('DCS-macro-hex', E + b'P2;0;1!z41!3;4243;0A' + E + b'\\'), ('DCS-macro-bad', E + b'P3;0;1!z4G' + E + b'\\'),
          ('DCS-macro-clr', E + b'P4;1;0!zX' + E + b'\\'), ('DCS-macro-p3', E + b'P4;0;7!zX' + E + b'\\'), ('DCS-nonum', E + b'P!zX' + E + b'\\'),
          ('DCS-macro-csi', E + b'P5;0;1!z1B5B3243' + E + b'\\'), ('DCS-macro-nest', E + b'P6;0;1!z1B5B352A7A' + E + b'\\'),
          ('INV1', E + b'[1*z'), ('INV2', E + b'[2*z'), ('INV5', E + b'[5*z'), ('INV6', E + b'[6*z'), ('INV9', E + b'[9*z'),
@@ -54,7 +100,8 @@ def extra_tokens(music):
          ('OSC4-big', E + b']4;999;rgb:00/00/00' + E + b'\\'), ('OSC-unknown', E + b']9;x' + E + b'\\'), ('OSC-empty', E + b']' + E + b'\\'), ('OSC-esc', E + b']8' + E + b'x'),
          ('APS', E + b'_hello' + E + b'\\'), ('APS-esc', E + b'_a' + E + b'b'), ('ST', E + b'\\'),
          ('CHK-macro', E + b'[?63;1n'), ('CHK-space', E + b'[?62n'), ('FONTSEL', E + b'[0;1 D'), ('FONTSEL-bad', E + b'[0;43 D'), ('FONTSEL-huge', E + b'[0;2147483647 D'),
-         ('DECFRA-ok', E + b'[65;1;1;9;9$x'), ('DECFRA-max', E + b'[1114111;1;1;2;2$x'), ('T24', E + b'[1;300;2;3t'), ('CSI-star-x', E + b'[1*x'), ('CSI-dollar-q', E + b'[1$q'),
+         ('DECFRA-ok', E + b'[65;1;1;9;9$x'), ('DECFRA-max', E + b'[1114111;1;1;2;2$x'), ('DECFRA-surrogate', E + b'[55296;1;1;2;2$x'), ('DECFRA-surrogate-hi', E + b'[57343;1;1;2;2$x'),
+         ('DECFRA-e000', E + b'[57344;1;1;2;2$x'), ('DECFRA-d7ff', E + b'[55295;1;1;2;2$x'), ('DECFRA-110000', E + b'[1114112;1;1;2;2$x'), ('DECFRA-i32max', E + b'[2147483647;1;1;2;2$x'), ('DECFRA-4', E + b'[65;1;1;9$x'), ('T24', E + b'[1;300;2;3t'), ('CSI-star-x', E + b'[1*x'), ('CSI-dollar-q', E + b'[1$q'),
          ('DEVATTR', E + b'[<0c'), ('DEVATTR2', E + b'[<1;2c'), ('REQ1', E + b'[=1n'), ('REQ2', E + b'[=2n'), ('REQ3', E + b'[=3n'), ('REQ9', E + b'[=9n'), ('SSM-short', E + b'[=1m'),
          ('BIG-e', E + b'[2147483647e'), ('BIG-E', E + b'[2147483647E'), ('BIG-F', E + b'[2147483647F'), ('BIG-d', E + b'[2147483647d'), ('BIG-H', E + b'[2147483647;2147483647H'),
          ('BIG-a', E + b'[2147483647a'), ('BIG-B', E + b'[2147483647B'), ('BIG-C', E + b'[2147483647C'), ('BIG-D', E + b'[2147483647D'), ('BIG-G', E + b'[99999999999G'),
@@ -72,7 +119,7 @@ def gen_stream(rng, emu, w, h, music):
         return sanitize(tg.malformed_stream(rng, emu, rng.choice([20, 200, 1500, 4096]), music != 0)), ['malformed']
     toks = tg.alphabet(emu, w, h)
     if emu in tg.ANSI_BASED:
-        toks = toks + tg.RESIZE + extra_tokens(music & 3) * 2
+        toks = toks + tg.RESIZE + extra_tokens(music & 3) * 2 + [random_font_token(rng) for _ in range(12)]
     toks = [t for t in toks if b'9999' not in t[1] or t[0].split('(')[0] in ('CUD', 'CUF', 'CUB', 'CNL', 'CPL', 'CHA', 'VPA', 'VPR', 'HPA', 'HPR', 'HPB', 'ECH', 'CUP', 'DECSTBM', 'CSR', 'DECSLRM', 'SSM')]
     b, names = tg.random_stream(rng, emu, w, h, rng.choice([3, 10, 40, 150]), toks=toks)
     if rng.random() < 0.3: b = b'\n' * (h + rng.choice([1, 30])) + b
@@ -85,11 +132,10 @@ LEDGER = [(0, 0, E + b']8;;' + E + b'\\', 'osc8-empty'), (0, 0, E + b']4;;rgb:00
           (0, 0, b'\n' * 80 + E + b'[2147483647e', 'vpr-overflow'), (0, 0, b'\n' * 80 + E + b'[2147483647B', 'cud-overflow'), (0, 0, b'\n' * 80 + E + b'[2147483647d', 'vpa-overflow'),
           (0, 0, b'\n' * 80 + E + b'[2147483647H', 'cup-overflow'), (0, 0, b'\n' * 80 + E + b'[2147483647E', 'cnl-overflow'), (0, 0, b'A' * 60 + E + b'[2147483647a', 'hpr-overflow'),
           (0, 0, E + b'[1;2147483647r' + E + b'[M', 'huge-margin-DL'), (0, 0, E + b'[=0;0m' + E + b'[M' + E + b'[L' + E + b'[=2;0m' + E + b'[ @' + E + b'[ A', 'ssm-zero')]
-KNOWN_INPUTS = [(0, 0, E + b'[55296;1;1;2;2$x', 'fill-surrogate'), (0, 0, E + b'PCTerm:Font:0:' + E + b'\\', 'font-short'),
-                (0, 0, E + b'P1;0;1!z1B5B312A7A' + E + b'\\' + E + b'[1*z', 'macro-self')]
-
-def has_known_class(b):
-    return b'CTerm:Font' in b or b'$x' in b or b'*z' in b
+# repaired in the merged tree by other properties' commits (09bc4f1 fill character, 952a970 .. 2141fac BitFont loaders): regression cases
+LEDGER += [(0, 0, E + b'[55296;1;1;2;2$x', 'fill-surrogate'), (0, 0, E + b'PCTerm:Font:0:' + E + b'\\', 'font-short'),
+           (1, 0, b'\x16\x08\xf0\xf0' + b'\x16\x08\0\0' + b'\x16\x08\x03\x02', 'avatar-goto')] + [(0, 0, b, n) for b, n in FONT_STREAMS]
+KNOWN_INPUTS = [(0, 0, E + b'P1;0;1!z1B5B312A7A' + E + b'\\' + E + b'[1*z', 'macro-self')]
 
 def norm_impl(r):
     if r[0] == 'ok': return r[1]
@@ -116,6 +162,19 @@ def correspondence(ctx):
         meta.append((emu, music, w, h, b, names))
     for emu, music, b, name in LEDGER + KNOWN_INPUTS:
         meta.append((emu, music, 80, 25, b, [name]))
+    # directed: every font DCS token followed by every font selection (which slots hold a font afterwards), the DECFRA fill characters
+    allsel = b''.join(b for _, b in FONTSEL_TOKENS)
+    for name, b in FONT_TOKENS:
+        meta.append((0, 0, 80, 25, b + allsel, [name, 'FONTSEL-*']))
+    for _ in range(ctx.n(40, 400)):
+        name, b = random_font_token(ctx.rng)
+        meta.append((ctx.rng.choice([0, 1, 2, 3, 4]), 0, 80, 25, b + E + b'[0;77 D' + E + b'[0;43 D' + E + b'[0;99 D' + E + b'[0;9 D', [name]))
+    meta.append((0, 0, 10, 4, b''.join(b for n, b in extra_tokens(0) if n.startswith('DECFRA')), ['DECFRA-*']))
+    # the Avatar goto with every kind of position byte, as the LAST movement of the stream (only the final cursor is observed here)
+    for w, h in ((80, 25), (5, 3), (132, 60)):
+        for name, b in tg.emu_tokens(1, w, h):
+            if name.startswith('avt-goto'):
+                meta.append((1, 0, w, h, b'AB\n' + b, [name]))
     cases = ['c01run %d %d %d %d %s' % (e, mu, w, h, tg.hx(b)) for e, mu, w, h, b, _ in meta]
     exprs = ['run_c01 %d %d %d %d %s' % (e, mu, w, h, zl(b)) for e, mu, w, h, b, _ in meta]
     impl = ctx.impl(cases, per_case_timeout=30)
@@ -156,7 +215,8 @@ def enclosing_fn(repo, loc):
         if mm: return mm.group(1)
     return os.path.basename(path)
 
-def classify(ctx, case, r):
+ABORT_BISECTIONS = 25      # each costs ~log2(len) worker runs; a broken tree produces thousands of aborting streams
+def classify(ctx, case, r, budget=None):
     """signature of a crash"""
     hexs = case.split()[5]
     b = b'' if hexs == '-' else bytes.fromhex(hexs)
@@ -166,6 +226,10 @@ def classify(ctx, case, r):
         fn = enclosing_fn(ctx.repo, r[1])
         return 'C01-panic:' + fn
     if r[0] == 'abort':
+        if budget is not None:
+            if budget[0] <= 0:      # not located: named after the only construct known to abort, if the stream contains it
+                return 'C01-abort:fill_rectangular_area' if re.search(rb'\$x', b) else 'C01-abort:unlocated'
+            budget[0] -= 1
         # no location survives an abort: find the shortest crashing prefix and look at the sequence that ends it
         lo, hi = 0, len(b)
         head = ' '.join(case.split()[:5])
@@ -209,12 +273,13 @@ def search(ctx, broken):
                 cases.append('c01run %d %d 80 25 %s' % (emu, 3 if emu == 0 else 0, tg.hx(body))); meta.append('pairs')
     impl = ctx.impl(cases, per_case_timeout=10)
     failures = []; nontriv = 0; classes = {}
-    for c, r, me in zip(cases, impl, meta):
+    budget = [ABORT_BISECTIONS]
+    for c, r, me in sorted(zip(cases, impl, meta), key=lambda x: len(x[0])):      # shortest streams first: they get the bisections
         classes[r[0]] = classes.get(r[0], 0) + 1
         if r[0] == 'ok':
             if r[1][1] > 0 or r[1][3] or r[1][4]: nontriv += 1
             continue
-        sig = classify(ctx, c, r)
+        sig = classify(ctx, c, r, budget)
         if sig is None:
             classes['sandbox-thread-limit'] = classes.get('sandbox-thread-limit', 0) + 1
             continue
@@ -242,13 +307,15 @@ def replay(ctx, body):
 
 LEVEL_TEXT = ('PARTIAL. Machine-checked (Coq, closed under the global context) on the models shared with C09: (a) c01_standalone: for ASCII, ATASCII, Viewdata and Mode 7 every stream of any '
               'length on every screen 1..=132 x 1..=60 yields an action or an error value for every character (the run never panics or diverges) - full strength; '
-              '(b) c01_ansi_char_partial / c01_stream_partial: ansi::Parser::print_char at character level in EVERY EngineState (CSI incl. ? = ! < and intermediates, DCS, OSC, APS, '
-              'macros, all seven music states): on a state satisfying the C09 invariant with an empty macro table one character panics only at a KNOWN site (stream-supplied font, '
-              'non-scalar DECFRA fill character); after any stream without text-area resize that invariant holds (C09), which gives the stream form; (c) core_ops_never_panic: print_char, '
-              'lf, erase, insert/remove line, scroll_right, limit_caret_pos never panic on the invariant. NOT proved (stages C and S only): characters processed after a resize, '
-              'macro replay (stored macros), Avatar/PCBoard/Ctrl-A/Renegade wrappers beyond their C09 invariant, PETSCII. Seven fix: commits remove the panics of the ledger '
-              '(OSC 8, OSC 4, margin validation, SL/SR, music index, music arithmetic, cursor-motion overflow); three classes stay known findings.')
+              '(b) c01_ansi_char_partial / c01_stream_partial: ansi::Parser::print_char at character level in EVERY EngineState (CSI incl. ? = ! < and intermediates, DCS incl. CTerm:Font '
+              'loading through C17\'s BitFont model, OSC, APS, macros, all seven music states): on a state satisfying the C09 invariant with an empty macro table one character yields an action '
+              'or an error value - no panic site is left (the two former known sites, stream-supplied font and non-scalar DECFRA fill character, are repaired in the merged tree); after any stream '
+              'without text-area resize that invariant holds (C09), which gives the stream form; c01_ansi_stream_partial: every ANSI stream runs through, or the character at which it stops was '
+              'processed after a resize or with a macro stored; (c) core_ops_never_panic: print_char, lf, erase, insert/remove line, scroll_right, limit_caret_pos never panic on the invariant. '
+              'NOT proved (stages C and S only): characters processed after a resize, macro replay (stored macros), Avatar/PCBoard/Ctrl-A/Renegade wrappers beyond their C09 invariant, PETSCII. '
+              'Nine fix: commits remove the panics of the ledger (OSC 8, OSC 4, margin validation, SL/SR, music index, music arithmetic, cursor-motion overflow; DECFRA fill character by C10, '
+              'BitFont loaders by C17); one class stays a known finding (unbounded macro recursion).')
 LEVEL_NOTE = ('Trusted: Coq kernel + vm_compute; hand models tied to the Rust code by per-stream outcome comparison (stage C) and, via C09, per-character state comparison; '
-              'worker classification of aborts/stack overflows/timeouts. Resource bounds (time, memory) are C03, not C01.')
-TECHNIQUE = ('Coq proof: no-panic lemmas for every res-valued operation under the C09 invariant, case analysis of every parser state, induction over streams for the stand-alone '
-             'emulations; differential outcome classes; crash search with signatures by enclosing function')
+              'the base64 decoder model (external crate) tied by stage C; worker classification of aborts/stack overflows/timeouts. Resource bounds (time, memory) are C03, not C01.')
+TECHNIQUE = ('Coq proof: no-panic lemmas for every res-valued operation under the C09 invariant, case analysis of every parser state, totality of the font loader model, induction over '
+             'streams (stand-alone emulations; ANSI up to the first resize / stored macro); differential outcome classes; crash search with signatures by enclosing function')
